@@ -150,7 +150,7 @@ HUGE_T = HUGE + [("chain", 2200000), ("star", 2200000), ("fan", 1100000), ("ladd
 BOARDS = [(200, 3, "a"), (200, 3, "c"), (400, 1, "b"), (1, 200, "a"), (1, 200, "c"), (60, 5, "b")]
 
 
-def plan(tier, seed):
+def _plan_base(tier, seed):
     q = tier == "quick"
     b = harness.split("RND", 3000 if q else 50000, 250 if q else 2000)
     deep = DEEP if q else DEEP_T
@@ -227,7 +227,16 @@ def _decide(tl, finals, idx, cls, literal=True):
     return res
 
 
+def plan(tier, seed):
+    from . import threads_common
+    return threads_common.plan_threads(tier) + _plan_base(tier, seed)
+
+
 def run_batch(batch):
+    if batch["cls"] == "THREADS":
+        from . import threads_common
+        yield from threads_common.run(batch, PID, None, EMIT_START, 'graphs', None)
+        return
     monitors.install()
     monitors.MON.flags.update(alias=False, prune=False)
     _install_depth_meter(monitors.mods()["reverse_dfs"])
@@ -285,6 +294,9 @@ def run_batch(batch):
 
 
 def replay(case):
+    if "threads" in case:
+        from . import threads_common
+        return threads_common.replay(case, PID, None, 'graphs', None)
     monitors.install()
     monitors.MON.flags.update(alias=False, prune=False)
     if "tl" in case:
